@@ -50,7 +50,7 @@ def check(ctx):
     # mechanisms this property rests on (see shared.py): a change there is reported here as well
     from . import shared as _sh
 
-    ctx.run(_sh.cli_layer, "gaftools.cli.realign")
+    ctx.run_shared(_sh.cli_layer, "gaftools.cli.realign")
 
 
 def r13_1(ctx, m, L):
